@@ -45,7 +45,8 @@ def check(chk):
     raises = [n for n in walk_no_nested(tr.node) if isinstance(n, ast.Raise)]
 
     def under_check_nans(node):
-        return any(is_self_attr(g.test, "check_nans") and g.polarity for g in ff.guards(node))
+        from .common import under_flag
+        return under_flag(ff, node, "check_nans", True)
 
     # helpers: which helper computes what (derived from their bodies)
     def helper_kind(name):
@@ -74,6 +75,8 @@ def check(chk):
     mask_raise = iso_raise = None
     for r in raises:
         own = [g for g in ff.guards(r) if g.kind in ("if", "case")][-1:]  # the condition that makes this raise fire
+        # ignore an enclosing `if self.check_nans:` as "own" condition
+        own = [g for g in own if not is_self_attr(g.test, "check_nans")] or [g for g in ff.guards(r) if g.kind == "early-exit"][-1:]
         for g in own:
             ks, params, attrs, ops = kinds_of(g.test)
             if "valid_features" in ks and "self.is_valid_feature" in attrs and ({"equals", "identical"} & ops or isinstance(g.test, ast.Compare)):
@@ -150,6 +153,7 @@ def check(chk):
 
 def _reinsert(chk, san):
     pm = chk.pm
+    from .common import class_closure, resolve_sources
     want = {
         "inverse_transform_data": ("self.feature_name", "self.feature_coords"),
         "inverse_transform_components": ("self.feature_name", "self.feature_coords"),
@@ -158,17 +162,37 @@ def _reinsert(chk, san):
     for mname, (dim, coords) in want.items():
         fn = san.methods.get(mname)
         chk.require(fn is not None, f"Sanitizer.{mname} vanished")
-        ff = FuncFacts.of(fn)
         ok = False
         node = fn.node
-        for c in ff.calls():
-            if isinstance(c.func, ast.Attribute) and c.func.attr == "reindex" and c.args and isinstance(c.args[0], ast.Dict):
-                d = c.args[0]
-                k, v = d.keys[0], d.values[0]
-                ksrc = {p.atom.name for p in ff.paths(k, spine_only=True)}
-                vsrc = {p.atom.name for p in ff.paths(v, spine_only=True)}
-                node = c
-                ok = ksrc == {dim} and vsrc == {coords} and any(any(o.node is c for o in p.ops) for r in returns_of(fn) if r.value is not None for p in ff.paths(r.value, spine_only=True))
+        # the reindex may live in a private helper: resolve its arguments back to this method's call
+        for g in class_closure(pm, san, fn):
+            for c in calls_in(g):
+                if isinstance(c.func, ast.Attribute) and c.func.attr == "reindex" and c.args and isinstance(c.args[0], ast.Dict):
+                    d = c.args[0]
+                    k, v = d.keys[0], d.values[0]
+                    node = c if g is fn else node
+                    if g is fn:
+                        ksrc = resolve_sources(pm, san, g, k)
+                        vsrc = resolve_sources(pm, san, g, v)
+                    else:
+                        # bind the helper's parameters at the call made by this very method
+                        ksrc, vsrc = set(), set()
+                        from ..resolve import Ctx as _Ctx
+                        cx = _Ctx(pm, fn, san)
+                        for call in calls_in(fn):
+                            if any(t.fn is g for t in cx.resolve_call(call)):
+                                from .common import bind_args as _bind
+                                b = _bind(g, call)
+                                gf = FuncFacts.of(g)
+                                for q in gf.paths(k, spine_only=True):
+                                    if q.atom.kind == "param" and q.atom.name in b:
+                                        ksrc |= resolve_sources(pm, san, fn, b[q.atom.name])
+                                for q in gf.paths(v, spine_only=True):
+                                    if q.atom.kind == "param" and q.atom.name in b:
+                                        vsrc |= resolve_sources(pm, san, fn, b[q.atom.name])
+                                node = call
+                    if ksrc == {dim} and vsrc == {coords}:
+                        ok = True
         chk.check(ok, "REINSERT.reindex", fn, node, construct=f"Sanitizer.{mname}: reindex {dim} to {coords}",
                   why="deleted labels are no longer re-inserted (as NaN) at the coordinates remembered at fit")
     # reachability from model accessors
